@@ -400,10 +400,19 @@ func genFile(r *rng.R, i int) (f *ach.File) {
 	switch kind {
 	case "MIX":
 		o.IAT = true
-		return gen.File(r, o)
+		f = gen.File(r, o)
 	default:
-		return gen.FileOfSEC(r, kind, o)
+		f = gen.FileOfSEC(r, kind, o)
 	}
+	// the file header admits RFC 3339 timestamps for its creation date and time (any zone offset)
+	if f != nil && r.Chance(1, 6) {
+		ts := rng.Pick(r, []string{"2019-09-23T21:50:52-07:00", "2021-01-31T23:59:00+05:30", "2020-02-29T00:10:00Z", "2022-12-31T22:15:07-10:00", "2018-07-04T03:04:05+09:00"})
+		f.Header.FileCreationDate, f.Header.FileCreationTime = ts, ts
+		if f.Create() != nil || f.Validate() != nil {
+			return nil
+		}
+	}
+	return f
 }
 
 var optNames = []string{"SkipAll", "RequireABAOrigin", "BypassOriginValidation", "BypassDestinationValidation", "CustomTraceNumbers",
